@@ -321,6 +321,10 @@ PROPS["C15"] = {
         K("OSN codec (RFC 4588)", "c15_osn_codec", "quick", "proof", ["encode_osn", "decode_osn"], "big-endian, inverse for every u16, None below 2 bytes", module="rtx"),
         K("RTX wrap then unwrap (3 B payload)", "c15_rtx_wrap_unwrap_p3", "quick", "bounded", ["wrap_rtx_packet", "unwrap_rtx_packet"],
           "RTX packet carries rtx ssrc/pt/seq, the original timestamp and marker, OSN || payload; unwrap restores sequence number, timestamp, marker, payload", bound="3 payload bytes", module="rtx"),
+        K("BYE build∘parse (literal reason)", "c15_bye_roundtrip_literal_reason", "quick", "bounded", ["build_goodbye_body", "parse_goodbye"],
+          "layout (ssrc, length octet, text) and parse(build(b)) == b", bound="one source, reason \"bye\"", module=RM),
+        K("SDES build∘parse (literal CNAME)", "c15_sdes_roundtrip_literal_cname", "quick", "bounded", ["build_sdes_body", "parse_sdes"],
+          "parse(build(s)) == s: ssrc, item type and text recovered", bound="one chunk, one item, text \"ab\"", module=RM),
         K("canary: report block inverse without clamping", "canary_report_block_unclamped", "quick", "canary", ["build_report_block"], "false claim, must FAIL", expect="fail", module=RM),
     ],
 }
@@ -370,6 +374,8 @@ PROPS["C16"] = {
           "== 2^32*min + 2*max + (G>D) in u128 without u64 overflow for ANY remote priority given local <= 0x7EFFFFFF; pair(a,b).priority(Controlling) == pair(b,a).priority(Controlled)", module=IM),
         K("pair ordering agreement", "c16_pair_priority_order_agreement", "quick", "proof", ["IceCandidatePair::priority"],
           "both agents order any two pairs identically", module=IM),
+        K("RFC 4571 framing for STUN over TCP", "c16_frame_stun_for_tcp_layout", "quick", "bounded", ["frame_stun_for_tcp"],
+          "16-bit big-endian length prefix followed by the message", bound="7-byte message", module=IM),
         K("canary: pair priority role independent", "canary_pair_priority_role_independent", "quick", "canary", ["IceCandidatePair::priority"], "false claim, must FAIL", expect="fail", module=IM),
     ],
 }
